@@ -37,6 +37,48 @@ func init() {
 	})
 }
 
+// c12CounterOwner is the struct type that holds the hits/misses/evictions
+// counters: LRUCache itself, or a struct it embeds them in (c.metrics.hits).
+var c12CounterOwner = lruType
+
+func c12FindCounterOwner(c *Ctx) {
+	c12CounterOwner = lruType
+	pk := c.P.Pkg("internal/cache")
+	if pk == nil {
+		return
+	}
+	obj := pk.Types.Scope().Lookup("LRUCache")
+	if obj == nil {
+		return
+	}
+	st, ok := obj.Type().Underlying().(*types.Struct)
+	if !ok {
+		return
+	}
+	has := func(s *types.Struct, name string) bool {
+		for i := 0; i < s.NumFields(); i++ {
+			if s.Field(i).Name() == name {
+				return true
+			}
+		}
+		return false
+	}
+	if has(st, "hits") {
+		return
+	}
+	for i := 0; i < st.NumFields(); i++ {
+		t := st.Field(i).Type()
+		if p, ok := t.Underlying().(*types.Pointer); ok {
+			t = p.Elem()
+		}
+		if inner, ok := t.Underlying().(*types.Struct); ok && has(inner, "hits") {
+			if n := ssau.NamedOf(t); n != "" {
+				c12CounterOwner = n
+			}
+		}
+	}
+}
+
 // lruEnv caches the resolved methods of LRUCache.
 type lruEnv struct {
 	c       *Ctx
@@ -48,13 +90,20 @@ func (e *lruEnv) isLRUMethod(fn *ssa.Function) bool {
 	if fn == nil || fn.Signature.Recv() == nil {
 		return false
 	}
-	return ssau.NamedOf(fn.Signature.Recv().Type()) == lruType
+	n := ssau.NamedOf(fn.Signature.Recv().Type())
+	return n == lruType || (c12CounterOwner != lruType && n == c12CounterOwner)
 }
 
 // loadOfLRUField: v is a load of c.<field> of an LRUCache.
 func isLRULoad(v ssa.Value, field string) bool {
-	_, ok := ssau.IsFieldLoad(v, lruType, field)
-	return ok
+	if _, ok := ssau.IsFieldLoad(v, lruType, field); ok {
+		return true
+	}
+	if c12CounterOwner != lruType && (field == "hits" || field == "misses" || field == "evictions") {
+		_, ok := ssau.IsFieldLoad(v, c12CounterOwner, field)
+		return ok
+	}
+	return false
 }
 
 // entryOfElement: v == elem.Value.(*Entry) -> elem
@@ -111,16 +160,42 @@ func lruTag(in ssa.Instruction) []string {
 		if name == "builtin.delete" && len(args) == 2 && isLRULoad(args[0], "items") {
 			return []string{"map.delete"}
 		}
+		if name == "builtin.clear" && len(args) == 1 && isLRULoad(args[0], "items") {
+			return []string{"items=new"} // emptied in place: as good as a fresh map
+		}
 	case *ssa.MapUpdate:
 		if isLRULoad(x.Map, "items") {
 			return []string{"map.update"}
 		}
 	case *ssa.Store:
+		// the whole counter struct zeroed at once: *m = counters{}
+		if c12CounterOwner != lruType && ssau.NamedOf(x.Addr.Type()) == c12CounterOwner {
+			if k, isC := x.Val.(*ssa.Const); isC && k.Value == nil {
+				return []string{"hits=0", "misses=0", "evictions=0"}
+			}
+			if ld, ok := x.Val.(*ssa.UnOp); ok && ld.Op == token.MUL {
+				if lit, ok := ld.X.(*ssa.Alloc); ok {
+					zero := true
+					for _, ref := range *lit.Referrers() {
+						if _, isFA := ref.(*ssa.FieldAddr); isFA {
+							zero = false
+						}
+						if st2, isSt := ref.(*ssa.Store); isSt && st2.Addr == ssa.Value(lit) {
+							zero = false
+						}
+					}
+					if zero {
+						return []string{"hits=0", "misses=0", "evictions=0"}
+					}
+				}
+			}
+			return []string{"hits=?", "misses=?", "evictions=?"}
+		}
 		for _, f := range []string{"hits", "misses", "evictions"} {
-			if ssau.IsIncrement(x, lruType, f) {
+			if ssau.IsIncrement(x, c12CounterOwner, f) {
 				return []string{f + "++"}
 			}
-			if _, ok := ssau.IsFieldAddr(x.Addr, lruType, f); ok {
+			if _, ok := ssau.IsFieldAddr(x.Addr, c12CounterOwner, f); ok {
 				if n, isc := ssau.ConstInt(x.Val); isc && n == 0 {
 					return []string{f + "=0"}
 				}
@@ -146,6 +221,7 @@ func runC12(c *Ctx) {
 	r.Rule("O-5", "statistics: on every Get exit exactly one of hits++ (iff found) / misses++ (iff not found); evictions++ exactly where a capacity eviction removes an element; Stats/Size read the live fields; no other writes to the counters")
 	r.Rule("O-6", "lookup returns the latest store: Put on an existing key stores the new value into Entry.Value, Get returns Entry.Value of the element found under the key")
 
+	c12FindCounterOwner(c)
 	env := &lruEnv{c: c, methods: map[string]*ssa.Function{}}
 	env.eng = pathev.New(lruTag, env.isLRUMethod)
 	names := []string{"Get", "Put", "Delete", "Clear", "Size", "Stats", "Keys", "CleanupExpired"}
@@ -336,7 +412,7 @@ func c12Capacity(env *lruEnv, newFn *ssa.Function) {
 	for _, fn := range allLRUFuncs(env) {
 		ssau.ForEachInstr(fn, false, func(in ssa.Instruction) {
 			st, ok := in.(*ssa.Store)
-			if !ok || !ssau.IsIncrement(st, lruType, "evictions") {
+			if !ok || !ssau.IsIncrement(st, c12CounterOwner, "evictions") {
 				return
 			}
 			nEv++
@@ -702,6 +778,14 @@ func c12Recency(env *lruEnv, all []*ssa.Function) {
 
 // isItemsLookup: v is the element result of c.items[key] (comma-ok or plain).
 func isItemsLookup(v ssa.Value, key ssa.Value) bool {
+	// through a lookup step of the cache: el := c.liveElement(key)
+	if call, ok := v.(*ssa.Call); ok {
+		if h := call.Common().StaticCallee(); h != nil && c12LookupStep(h) >= 0 {
+			ki := c12LookupStep(h)
+			return ki < len(call.Common().Args) && call.Common().Args[ki] == key
+		}
+		return false
+	}
 	if ex, ok := v.(*ssa.Extract); ok && ex.Index == 0 {
 		v = ex.Tuple
 	}
@@ -934,6 +1018,79 @@ func c12Expiry(env *lruEnv, all []*ssa.Function) {
 			expiredEdges = append(expiredEdges, [2]*ssa.BasicBlock{i.Block(), i.Block().Succs[1-idx]})
 		}
 	}
+	// the lookup and the expiry test may live in a step that returns the element
+	// only when it is there and has not expired (nil otherwise): the non-nil
+	// side of the test of its result is then the safe side
+	for _, call := range callsMatching(get, false, func(string) bool { return true }) {
+		h := call.Common().StaticCallee()
+		if h == nil || c12LookupStep(h) < 0 || !env.isLRUMethod(h) {
+			continue
+		}
+		hcut := map[[2]int]bool{}
+		hExp := 0
+		var hExpired [][2]*ssa.BasicBlock
+		for _, i := range ssau.Ifs(h) {
+			k, safeThen, d := classifyExpiry(i.Cond)
+			if d != "" {
+				why = d
+			}
+			if k == expNone {
+				continue
+			}
+			idx := 1
+			if safeThen {
+				idx = 0
+			}
+			hcut[[2]int{i.Block().Index, idx}] = true
+			if k == expExpired {
+				hExp++
+				hExpired = append(hExpired, [2]*ssa.BasicBlock{i.Block(), i.Block().Succs[1-idx]})
+			}
+		}
+		live := hExp > 0
+		for _, ret := range ssau.ReturnsOf(h) {
+			if ssau.IsNilConst(ssau.ResultValue(ret, 0)) {
+				continue
+			}
+			if ssau.ReachableAvoidingEdges(h, ret.Block(), hcut) {
+				live = false // an element can be handed back without the expiry test
+			}
+		}
+		// the expired side removes the element and yields nil
+		for _, e := range hExpired {
+			for ret, m := range env.eng.From(e[1], 0) {
+				key := load.FuncKey(h) + "#expired-side:" + exitName(h, ret)
+				isNil := ssau.IsNilConst(ssau.ResultValue(ret, 0))
+				if !isNil {
+					continue // joins a live exit: reported by the reachability rule
+				}
+				r.Check(m.Get("list.Remove").Always(), "O-4", key, c.P.Pos(ret.Pos()), "expired entry is removed and nothing is handed back", "the expired side does not remove the entry on every path (it would be served again or leak)")
+			}
+		}
+		if !live {
+			continue
+		}
+		for _, i := range ssau.Ifs(get) {
+			op, x, y, ok := ssau.CondOf(i.Cond)
+			if !ok {
+				continue
+			}
+			if ssau.IsNilConst(x) {
+				x, y = y, x
+			}
+			if x != ssa.Value(call) || !ssau.IsNilConst(y) {
+				continue
+			}
+			switch op {
+			case token.NEQ:
+				cut[[2]int{i.Block().Index, 0}] = true
+				nExp++
+			case token.EQL:
+				cut[[2]int{i.Block().Index, 1}] = true
+				nExp++
+			}
+		}
+	}
 	for _, ret := range ssau.ReturnsOf(get) {
 		if len(ret.Results) != 2 || !ssau.IsConstBool(ssau.ResultValue(ret, 1), true) {
 			continue
@@ -1090,6 +1247,20 @@ func c12Stats(env *lruEnv, all []*ssa.Function) {
 	// no other method changes hits/misses; counters only change by ++ or =0 in Clear
 	for _, fn := range all {
 		name := fn.Name()
+		// a resetting step that only Clear calls is part of Clear
+		if obj := fn.Object(); obj != nil && !obj.Exported() && name != "Clear" {
+			if node := c.P.CallGraph().Nodes[fn]; node != nil && len(node.In) > 0 {
+				onlyClear := true
+				for _, e := range node.In {
+					if isShipped(c, e.Caller.Func) && !(e.Caller.Func.Name() == "Clear" && env.isLRUMethod(e.Caller.Func)) {
+						onlyClear = false
+					}
+				}
+				if onlyClear {
+					name = "Clear"
+				}
+			}
+		}
 		for ret, m := range env.eng.Exits(fn) {
 			key := fmt.Sprintf("%s#exit:%s/counter-writes", load.FuncKey(fn), exitName(fn, ret))
 			bad := ""
@@ -1117,7 +1288,7 @@ func c12Stats(env *lruEnv, all []*ssa.Function) {
 		pd := ssau.NewPostDom(fn)
 		ssau.ForEachInstr(fn, false, func(in ssa.Instruction) {
 			st, ok := in.(*ssa.Store)
-			if !ok || !ssau.IsIncrement(st, lruType, "evictions") {
+			if !ok || !ssau.IsIncrement(st, c12CounterOwner, "evictions") {
 				return
 			}
 			nEv++
@@ -1168,6 +1339,24 @@ func c12Stats(env *lruEnv, all []*ssa.Function) {
 			sizeOK = true
 		}
 	})
+	// the Stats value may be assembled by a helper of the counters: its
+	// fields are read back through the call
+	if len(got) == 0 && !sizeOK {
+		ev := &ctxEval{c: c}
+		recv := "param:" + stats.Params[0].Name()
+		for _, ret := range ssau.ReturnsOf(stats) {
+			fields := ev.Fields(ssau.ResultValue(ret, 0), nil)
+			for f, w := range want {
+				d := fields[f]
+				if strings.HasPrefix(d, recv+".") && strings.HasSuffix(d, "."+w) {
+					got[f] = true
+				}
+			}
+			if fields["Size"] == "len("+recv+".items)" {
+				sizeOK = true
+			}
+		}
+	}
 	for f := range want {
 		r.Check(got[f], "O-5", "cache.(*LRUCache).Stats#"+f, c.P.Pos(stats.Pos()), "reads the live counter", "Stats."+f+" is not the live "+want[f]+" counter")
 	}
@@ -1399,4 +1588,41 @@ func c12Resets(c *Ctx, fn *ssa.Function, field string, d int) bool {
 		}
 	})
 	return found
+}
+
+// c12LookupStep: h is a method of the cache whose every non-nil result is the
+// element found in items under one of its parameters; returns that
+// parameter's index (-1 when h is not such a step).
+func c12LookupStep(h *ssa.Function) int {
+	if h == nil || h.Blocks == nil || h.Signature.Recv() == nil || ssau.NamedOf(h.Signature.Recv().Type()) != lruType || h.Signature.Results().Len() != 1 {
+		return -1
+	}
+	if !strings.HasSuffix(h.Signature.Results().At(0).Type().String(), "container/list.Element") {
+		return -1
+	}
+	ki := -1
+	for _, ret := range ssau.ReturnsOf(h) {
+		v := ssau.ResultValue(ret, 0)
+		if ssau.IsNilConst(v) {
+			continue
+		}
+		ex, ok := v.(*ssa.Extract)
+		if !ok || ex.Index != 0 {
+			return -1
+		}
+		lk, ok := ex.Tuple.(*ssa.Lookup)
+		if !ok || !isLRULoad(lk.X, "items") {
+			return -1
+		}
+		p, ok := lk.Index.(*ssa.Parameter)
+		if !ok {
+			return -1
+		}
+		i := paramIdx(h, p)
+		if i < 0 || (ki >= 0 && ki != i) {
+			return -1
+		}
+		ki = i
+	}
+	return ki
 }
